@@ -140,7 +140,7 @@ def WCB.pushField (w : WCB) (ty : Ty) : WCB :=
   if ty.mentions w.gps then { w with types := w.types ++ [ty] } else w
 
 /-- the where-clause items, in emission order -/
-def WCB.items (w : WCB) (f : Ty → GToks) : List GToks := w.types.map (fun t => f t.parenIfPlus) ++ w.preds.map (fun p => U p.toks)
+def WCB.items (w : WCB) (f : Ty → GToks) : List GToks := w.types.map (fun t => f t.parenInWhere) ++ w.preds.map (fun p => U p.inWhere.toks)
 
 def WCB.build (w : WCB) (f : Ty → GToks) : GToks :=
   let ws := w.items f
